@@ -287,7 +287,16 @@ def load_known():
 
 
 # ------------------------------------------------------------------------------------------ the check
-def run_seq_check(prop, tier, flags, plan, seed, design_ref, extra_assumptions=None):
+def write_evidence(prop, evidence, lines, summary):
+    os.makedirs(V + '/evidence', exist_ok=True)
+    with open('%s/evidence/%s.json' % (V, prop), 'w') as f:
+        json.dump(evidence, f, indent=1)
+    for l in lines:
+        print(l)
+    print(summary)
+
+
+def run_seq_check(prop, tier, flags, plan, seed, design_ref, extra_assumptions=None, write=True, clear_replays=True):
     """plan: list of (group, maxstim, revs).  flags: the monitor flags of RxProps.Judge that decide `prop`."""
     t0 = time.time()
     harness = build_harness()
@@ -356,7 +365,8 @@ def run_seq_check(prop, tier, flags, plan, seed, design_ref, extra_assumptions=N
                             continue
                         seen_v.add(key)
                         violations.append((flag, v, reset, stims))
-        shutil.rmtree('%s/replays/%s' % (V, prop), ignore_errors=True)
+        if clear_replays:
+            shutil.rmtree('%s/replays/%s' % (V, prop), ignore_errors=True)
         os.makedirs('%s/replays/%s' % (V, prop), exist_ok=True)
         for flag, v, reset, stims in violations[:50]:
             case = {'root': reset['root'], 'cfg': reset['cfg'], 'rev': reset['rev'], 'stims': [{'st': s['st']} for s in stims]}
@@ -408,14 +418,12 @@ def run_seq_check(prop, tier, flags, plan, seed, design_ref, extra_assumptions=N
                             'TLC, the TLA+ modules under spec/, and the harness interpreter rt/harness/src/term.rs are trusted'] + (extra_assumptions or []),
             'wall_s': round(time.time() - t0, 1), 'violations': len(violations),
         }
-        os.makedirs(V + '/evidence', exist_ok=True)
-        with open('%s/evidence/%s.json' % (V, prop), 'w') as f:
-            json.dump(evidence, f, indent=1)
-        for l in out_lines:
-            print(l)
-        print('%s %s: %d states, %d cases replayed (%d agree with L1, %d differ), %d traces validated by TLC, %d new violations, %.0fs'
-              % (prop, tier, tot['states'], tot['cases'], tot['agree'], tot['differ'], len(verdicts), len(violations), time.time() - t0))
-        return 1 if violations else 0
+        summary = ('%s %s: %d states, %d cases replayed (%d agree with L1, %d differ), %d traces validated by TLC, %d new violations, %.0fs'
+                   % (prop, tier, tot['states'], tot['cases'], tot['agree'], tot['differ'], len(verdicts), len(violations), time.time() - t0))
+        if write:
+            write_evidence(prop, evidence, out_lines, summary)
+            return 1 if violations else 0
+        return (1 if violations else 0), evidence, out_lines, summary
     finally:
         if not os.environ.get('VERIF_KEEP'):
             shutil.rmtree(work, ignore_errors=True)
